@@ -4,59 +4,96 @@ from checklib import *  # noqa
 
 STATE_PREDS = {"Conservation", "NoNegative", "WellFormed", "SysClean", "CounterWithRole"}
 
-MC_ALL_DIRECT = ["P01_FailKeeps", "P02_Others", "P02_NoOverdraft", "P03_Authority", "P04_Immobile", "P04_NoCreditWhilePaused", "P04_FlagOnly",
+MC_ALL_DIRECT = ["P01_DeliveryNominal", "P16_Price", "P10_RoundTrip", "P10_Accepted", "P11_ShapeVerdict", "P01_FailKeeps", "P02_Others", "P02_NoOverdraft", "P03_Authority", "P04_Immobile", "P04_NoCreditWhilePaused", "P04_FlagOnly",
                  "P05_Protected", "P05_KVExact", "P05_Frame", "P06_NoGasCreated", "P07_ReturnedNonce", "P07_CtrOnlyByCreate", "P08_Create",
                  "P08_OnlyUriAttr", "P08_WrongHash", "P09_Admissible", "P09_Rejected"]
 
 
-def mc_cfg(fns, msgs, supply, ctr, checked=None, bugs=(), hs=("u0a", "u0b", "u1a"), freeze=("u0a",), ptoks=("46",), pshards=(0,),
+def mc_cfg(fns, msgs, supply, ctr, checked=None, bugs=(), hs=("u0a", "u0b", "u1a"), freeze=("u0a",), ptoks=("46",), pshards=(0,), gas=(1000,), rejected=False,
            invs=("InvNoViol", "InvConservation", "InvNoNegative", "InvWellFormed", "InvSysClean", "InvNonces")):
     q = lambda l: "{" + ", ".join('"%s"' % x for x in l) + "}"
     pd = q(ptoks) + "\n  PauseShards = {" + ", ".join(str(x) for x in pshards) + "}"
     return ("SPECIFICATION Spec\nCONSTANTS\n  Fns = %s\n  MaxMsgs = %d\n  MaxSupply = %d\n  MaxCtr = %d\n  Hs = %s\n  FreezeAccts = %s\n  PauseToks = %s\n"
-            "  Bugs = %s\n  Checked = %s\nINVARIANTS %s\nVIEW View\nCHECK_DEADLOCK FALSE\n") % (
-        q(fns), msgs, supply, ctr, q(hs), q(freeze), pd, q(bugs), q(checked or MC_ALL_DIRECT), " ".join(invs))
+            "  GasPoints = {%s}\n  ExploreRejected = %s\n  Bugs = %s\n  Checked = %s\nINVARIANTS %s\nVIEW View\nCHECK_DEADLOCK FALSE\n") % (
+        q(fns), msgs, supply, ctr, q(hs), q(freeze), pd, ", ".join(str(g) for g in gas), "TRUE" if rejected else "FALSE", q(bugs), q(checked or MC_ALL_DIRECT), " ".join(invs))
 
 
-# per property: driver profile, predicates checked on recorded behaviour, model configuration (quick, thorough), vacuity guards
+# per property: driver profile and flags, predicates checked on recorded behaviour, model configurations (quick, thorough), vacuity guards
+def M(fns, msgs=1, supply=2, ctr=1, **kw):
+    return dict(fns=fns.split(","), msgs=msgs, supply=supply, ctr=ctr, kw=kw)
+
+
 LEDGER = {
-    "C01": dict(profile="transfer", preds=["P01_Exact", "P01_DeliveryAccepted", "P01_RefundRestores", "P01_FailKeeps", "Conservation", "NoNegative"],
-                mc=(dict(fns=["ESDTTransfer", "issue", "ESDTNFTTransfer", "nft", "flags"], msgs=1, supply=2, ctr=1),
-                    dict(fns=["ESDTTransfer", "issue", "ESDTNFTTransfer", "MultiESDTNFTTransfer", "nft", "flags"], msgs=2, supply=3, ctr=1)),
+    "C01": dict(profile="transfer", preds=["P01_Exact", "P01_DeliveryAccepted", "P01_DeliveryNominal", "P01_RefundRestores", "P01_FailKeeps", "Conservation", "NoNegative"],
+                mc=([M("ESDTTransfer,issue,ESDTNFTTransfer,create"), M("ESDTTransfer,issue,flags,MultiESDTNFTTransfer")],
+                    [M("ESDTTransfer,issue,ESDTNFTTransfer,MultiESDTNFTTransfer,create", msgs=2), M("ESDTTransfer,issue,flags,MultiESDTNFTTransfer,ESDTNFTTransfer,create", pshards=(0, 1))]),
                 need=dict(tok_ok=20, deliver_ok=5, deliver_err=1, refund_ok=1, overdraft_rej=1, alias_rej=1)),
     "C02": dict(profile="supply", preds=["P02_Delta", "P02_Others", "P02_NoOverdraft", "NoNegative", "Conservation"],
-                mc=(dict(fns=["mintburn", "nft", "flags", "issue"], msgs=1, supply=3, ctr=2),
-                    dict(fns=["mintburn", "nft", "flags", "issue", "ESDTTransfer", "roles"], msgs=1, supply=4, ctr=3)),
+                mc=([M("mintburn,create,flags,issue", supply=3)],
+                    [M("mintburn,create,flags,issue,ESDTTransfer,roles", supply=4, ctr=2)]),
                 need=dict(supply_ok=20, overdraft_rej=2, role_rej=2)),
     "C03": dict(profile="roles", preds=["P03_Authority", "P03_Grant", "P03_Denied"],
-                mc=(dict(fns=["mintburn", "nft", "roles", "handover", "acct", "flags"], msgs=1, supply=3, ctr=1),
-                    dict(fns=["mintburn", "nft", "roles", "handover", "acct", "flags", "ESDTTransfer"], msgs=2, supply=3, ctr=2)),
+                mc=([M("mintburn,roles,acct"), M("create,handover,metaops")],
+                    [M("mintburn,create,roles,handover,acct", supply=2), M("create,handover,metaops,flags,ESDTNFTTransfer", ctr=2)]),
                 need=dict(role_ok=10, role_rej=5, acct_ok=3, acct_rej=2, handover_ok=1, flag_ok=3)),
     "C04": dict(profile="freeze", preds=["P04_Immobile", "P04_NoCreditWhilePaused", "P04_FlagOnly", "P04_Restores"],
-                mc=(dict(fns=["ESDTTransfer", "flags", "mintburn", "issue"], msgs=1, supply=3, ctr=1),
-                    dict(fns=["ESDTTransfer", "ESDTNFTTransfer", "MultiESDTNFTTransfer", "flags", "mintburn", "nft", "issue"], msgs=1, supply=3, ctr=1)),
+                mc=([M("ESDTTransfer,flags,mintburn,issue", supply=3)],
+                    [M("ESDTTransfer,ESDTNFTTransfer,MultiESDTNFTTransfer,flags,mintburn,create,issue", supply=3, freeze=("u0a", "u1a"), ptoks=("46", "4e"), pshards=(0, 1))]),
                 need=dict(frozen_rej=3, paused_rej=3, flag_ok=10, refund_ok=1)),
     "C05": dict(profile="kv", preds=["P05_Protected", "P05_KVExact", "P05_Frame"],
-                mc=(dict(fns=["kv", "ESDTTransfer", "acct", "flags"], msgs=1, supply=2, ctr=1),
-                    dict(fns=["kv", "ESDTTransfer", "ESDTNFTTransfer", "nft", "acct", "flags", "roles", "handover"], msgs=1, supply=2, ctr=1)),
+                mc=([M("kv,ESDTTransfer,acct")],
+                    [M("kv,ESDTTransfer,ESDTNFTTransfer,create,acct,flags,roles,handover")]),
                 need=dict(kv_ok=10, kv_prot_rej=5, tok_ok=5)),
+    "C06": dict(profile="gas", flags=["-gassweep"], preds=["P06_NoGasCreated", "P06_Underfunded"],
+                mc=([M("ESDTTransfer,kv,create,ESDTNFTTransfer", gas=(0, 9, 10, 11, 60, 1000))],
+                    [M("ESDTTransfer,kv,create,metaops,mintburn,acct,ESDTNFTTransfer,MultiESDTNFTTransfer", gas=(0, 9, 10, 11, 20, 60, 61, 1000))]),
+                need=dict(gas_max=20, gas_rej=20, priced=50)),
     "C07": dict(profile="nonce", preds=["P07_ReturnedNonce", "P07_Handover", "P07_CtrOnlyByCreate", "CounterWithRole"],
-                mc=(dict(fns=["nft", "handover", "ESDTNFTTransfer"], msgs=1, supply=2, ctr=2),
-                    dict(fns=["nft", "handover", "ESDTNFTTransfer", "MultiESDTNFTTransfer"], msgs=2, supply=2, ctr=3)),
+                mc=([M("create,handover,ESDTNFTTransfer", ctr=2)],
+                    [M("create,handover,ESDTNFTTransfer,MultiESDTNFTTransfer", msgs=2, ctr=3)]),
                 need=dict(create_ok=15, handover_ok=2, handover_deliver=1)),
     "C08": dict(profile="meta", preds=["P08_Conf", "P08_Create", "P08_OnlyUriAttr", "P08_UriAttrExact", "P08_WrongHash"],
-                mc=(dict(fns=["nft", "ESDTNFTTransfer"], msgs=2, supply=2, ctr=2),
-                    dict(fns=["nft", "ESDTNFTTransfer", "MultiESDTNFTTransfer"], msgs=2, supply=2, ctr=2)),
+                mc=([M("create,metaops,ESDTNFTTransfer")],
+                    [M("create,metaops,ESDTNFTTransfer,MultiESDTNFTTransfer", msgs=2, ctr=2)]),
                 need=dict(create_ok=10, meta_fn_ok=2, tok_ok=15, deliver_ok=3)),
     "C09": dict(profile="payable", preds=["P09_Admissible", "P09_Rejected"],
-                mc=(dict(fns=["ESDTTransfer", "ESDTNFTTransfer", "nft", "issue"], msgs=2, supply=2, ctr=1),
-                    dict(fns=["ESDTTransfer", "ESDTNFTTransfer", "MultiESDTNFTTransfer", "nft", "issue"], msgs=2, supply=3, ctr=1)),
+                mc=([M("ESDTTransfer,ESDTNFTTransfer,create,issue", hs=("u0a", "u1a", "c1a"))],
+                    [M("ESDTTransfer,ESDTNFTTransfer,MultiESDTNFTTransfer,create,issue", msgs=2, hs=("u0a", "u0b", "u1a", "c1a"))]),
                 need=dict(payable_rej=3, tok_ok=20, nonpay_exempt=1)),
+    "C10": dict(profile="transfer", preds=["P10_ParserEqualsLedger", "P10_RoundTrip", "P10_Accepted"],
+                mc=([M("ESDTTransfer,ESDTNFTTransfer,MultiESDTNFTTransfer,create,issue", hs=("u0a", "u1a", "c1a"))],
+                    [M("ESDTTransfer,ESDTNFTTransfer,MultiESDTNFTTransfer,create,issue,handover,acct", msgs=2, hs=("u0a", "u0b", "u1a", "c1a"))]),
+                need=dict(out_msgs=10, parsed=30, deliver_ok=5)),
+    "C11": dict(profile="mixed", flags=["-alloc", "-adversarial", "75"], preds=["P11_Shape", "P11_ShapeVerdict", "P11_Alloc"],
+                mc=([M("ESDTTransfer,ESDTNFTTransfer,MultiESDTNFTTransfer,create", rejected=True, hs=("u0a", "u1a")), M("mintburn,metaops,create", rejected=True, hs=("u0a",)), M("kv,flags", rejected=True, hs=("u0a",)), M("acct,handover", rejected=True, hs=("u0a", "u1a"))],
+                    [M("ESDTTransfer,ESDTNFTTransfer,MultiESDTNFTTransfer,mintburn,create,metaops,flags,roles,handover,acct,kv,issue", rejected=True)]),
+                need=dict(shapebad=100, steps=1000, gas_max=20)),
+    "C13": dict(profile="mixed", flags=["-triple"], preds=["P13_Replicas", "P13_InputIntact"],
+                mc=([M("ESDTTransfer,issue,ESDTNFTTransfer,create")], [M("ESDTTransfer,issue,ESDTNFTTransfer,MultiESDTNFTTransfer,create,mintburn")]),
+                need=dict(replicas=500, tok_ok=10), scale=0.5),
     "C15": dict(profile="mixed", preds=["WellFormed", "SysClean", "NoNegative"],
-                mc=(dict(fns=["ESDTTransfer", "ESDTNFTTransfer", "mintburn", "nft", "flags", "roles", "handover"], msgs=1, supply=2, ctr=1),
-                    dict(fns=["ESDTTransfer", "issue", "ESDTNFTTransfer", "MultiESDTNFTTransfer", "mintburn", "nft", "flags", "roles", "handover", "acct", "kv"], msgs=1, supply=2, ctr=2)),
+                mc=([M("ESDTTransfer,ESDTNFTTransfer,create,handover"), M("ESDTTransfer,flags,mintburn,issue", supply=3)],
+                    [M("ESDTTransfer,issue,ESDTNFTTransfer,MultiESDTNFTTransfer,mintburn,create,metaops,flags,roles,handover")]),
                 need=dict(tok_ok=10, supply_ok=10, flag_ok=5, create_ok=5)),
+    "C16": dict(profile="gas", flags=["-gassweep"], preds=["P16_Price", "P16_ProbePrice", "P16_Charged"],
+                mc=([M("sched,ESDTTransfer,kv,create,ESDTNFTTransfer", gas=(60, 1000))],
+                    [M("sched,ESDTTransfer,kv,create,metaops,mintburn,acct,ESDTNFTTransfer,MultiESDTNFTTransfer", gas=(60, 1000))]),
+                need=dict(sched_ok=3, sched_rej=2, priced=80, probe=100)),
+    "C17": dict(profile="mixed", flags=["-faults"], preds=["P17_FaultIsError", "P17_NoPanic"],
+                mc=([M("ESDTTransfer,issue,ESDTNFTTransfer,create")], [M("ESDTTransfer,issue,ESDTNFTTransfer,MultiESDTNFTTransfer,create,mintburn")]),
+                need=dict(faults_fired=300), scale=0.4),
 }
+
+def fault_model(run):
+    """C17 (M): with error propagation every ledger invariant survives every fault point; with a swallowed write it does not (non-vacuity)."""
+    cfg = "SPECIFICATION Spec\nCONSTANTS Swallow = %s\n MaxCalls = %d\nINVARIANTS Conservation NoNegative FaultIsError\nCHECK_DEADLOCK FALSE\n"
+    run.model_check("Fault", cfg % ("FALSE", 3 if run.tier == "quick" else 4), name="Fault-propagate", timeout=1200)
+    ok, o, info = run.model_check("Fault", cfg % ("TRUE", 3), name="Fault-swallow", timeout=600, must_hold=False)
+    if ok or "Invariant" not in o:
+        raise Infra("Fault.tla with Swallow=TRUE must violate an invariant (non-vacuity of C17's model)")
+
+
+LEDGER["C17"]["extra_mc"] = [fault_model]
 
 SIZES = {"quick": dict(traces=16, steps=140), "thorough": dict(traces=240, steps=300)}
 
@@ -64,16 +101,21 @@ SIZES = {"quick": dict(traces=16, steps=140), "thorough": dict(traces=240, steps
 def run_ledger(run):
     spec = LEDGER[run.pid]
     run.build_harness()
-    # (M) exhaustive model check of the bounded configuration
-    mc = spec["mc"][0 if run.tier == "quick" else 1]
-    run.model_check("EsdtMC", mc_cfg(mc["fns"], mc["msgs"], mc["supply"], mc["ctr"]), name="EsdtMC-" + run.pid, timeout=1500 if run.tier == "quick" else 7200)
+    # (M) exhaustive model check of the bounded configuration(s)
+    for n, mc in enumerate(spec["mc"][0 if run.tier == "quick" else 1]):
+        run.model_check("EsdtMC", mc_cfg(mc["fns"], mc["msgs"], mc["supply"], mc["ctr"], **mc["kw"]), name="EsdtMC-%s-%d" % (run.pid, n),
+                        timeout=900 if run.tier == "quick" else 7200)
+    for f in spec.get("extra_mc", []):
+        f(run)
     # (T) recorded behaviours of the real code
     sz = SIZES[run.tier]
+    scale = spec.get("scale", 1.0)
     total = dict(lines=0, drift=0, counters={})
-    chunks = 1 if run.tier == "quick" else 6
+    chunks = 1 if run.tier == "quick" else 8
+    ntr = max(2, int(sz["traces"] * scale) // chunks)
     for ch in range(chunks):
         trace = os.path.join(run.dir, "ledger-%d.ndjson" % ch)
-        st = run.harness(["ledger", "-seed", str(run.seed * 100 + ch), "-traces", str(sz["traces"] // chunks), "-steps", str(sz["steps"]), "-profile", spec["profile"], "-out", trace])
+        st = run.harness(["ledger", "-seed", str(run.seed * 100 + ch), "-traces", str(ntr), "-steps", str(sz["steps"]), "-profile", spec["profile"], "-out", trace] + spec.get("flags", []))
         viols, done = run.validate(trace, spec["preds"], label="tv%d" % ch)
         if done["lines"] != st["lines"]:
             raise Infra("trace validation consumed %d of %d lines" % (done["lines"], st["lines"]))
@@ -88,10 +130,11 @@ def run_ledger(run):
             run.cov["samples"] += [{"line": k, "event": slim_event(v["ev"])} for k, v in lines.items()]
         if run.tier == "thorough":
             os.remove(trace)
-    run.cov["evaluations"] = total["counters"].get("steps", 0)
+            os.remove(trace + ".replay") if not run.violations else None
+    run.cov["evaluations"] = total["lines"]
     run.cov["distinct_nontrivial"] = sum(1 for k, v in total["counters"].items() if v > 0 and k not in ("steps", "ok", "err", "unk", "pred"))
     run.cov["rule"] = ("seeded random drivers over 1-3 shard worlds executing the factory-built functions of /repo; every step recorded with the complete projected world; "
-                       "distinct_nontrivial = number of distinct situation classes (vacuity counters of EsdtTrace.tla) exercised at least once")
+                       "evaluations = recorded events validated by TLC; distinct_nontrivial = number of distinct situation classes (vacuity counters of EsdtTrace.tla) exercised at least once")
     run.cov["counters"] = total["counters"]
     run.cov["drift_steps"] = total["drift"]
     run.cov["predicates"] = spec["preds"]
